@@ -7,6 +7,10 @@
 import Model.C01
 import Properties.C09
 import Proofs.C01
+import Proofs.C01Bridge
+import Proofs.C01BridgeC08
+import Properties.C08
+import Properties.C10
 import Model.Generated.Phases
 import Mathlib.Tactic.NormNum
 import Proofs.ArithReal
@@ -170,6 +174,69 @@ theorem candidateCount_le (ints cats : Int) (hc : 1 ≤ cats) :
     have : ints.toNat ≤ 14 := by omega
     calc (2 : Int) ^ ints.toNat ≤ 2 ^ 14 := by exact_mod_cast Nat.pow_le_pow_right (by norm_num) this
       _ ≤ 30000 := by norm_num
+
+/-! ### What the vectorised optimisers and the Parzen sampler hand to the decode stage (composition with C08) -/
+
+/-- Every point that went through `restrict_points_to_domain` of the request's one-hot domain - that is every
+    iterate and every final point of DE / Adam (C07 `*_all_evaluated_restricted`), every perturbed sample of the
+    Parzen sampler and every re-projected Parzen suggestion - lies in the relaxed polytope of the domain, for
+    every input point, viable point, flag and random draw.  This discharges the `hx` hypothesis of
+    `finalizeGP_admissible` / `finalizeSPE_admissible`. -/
+theorem restricted_inRelaxed (d : Domain) (cheby : List Rat) (viable : Option (List Rat)) (onC : Bool) (u : Rat)
+    (p : List Rat) (hwf : C08.boxWF (relaxedBox d.comps) = true) (hcw : C08.consWF (C01Bridge.toCons d) = true)
+    (hl : p.length = (relaxedBox d.comps).length) (hcl : cheby.length = (relaxedBox d.comps).length)
+    (hc : C08.strictAll (C08.halfspaces (relaxedBox d.comps) (C01Bridge.toCons d)) cheby = true)
+    (hu0 : 0 ≤ u) (hu1 : u < 1) :
+    inRelaxed d (C08.restrictPoint (relaxedBox d.comps) (C01Bridge.toCons d) cheby viable onC u p) = true := by
+  obtain ⟨hb, _, hcons⟩ := C08.restrict_satisfies (relaxedBox d.comps) (C01Bridge.toCons d) cheby viable onC u p
+    hwf hcw hl hcl hc hu0 hu1
+  exact C01Bridge.inRelaxed_of_c08 d _ hb hcons
+
+/-- End to end for the Parzen endpoints: restricted samples, decoded, are admissible - no hypothesis left about
+    the samples themselves (any points `ps`, any draws `us` in [0,1)). -/
+theorem finalizeSPE_of_restricted (d : Domain) (o : Oracle) (cheby : List Rat) (viable : Option (List Rat)) (onC : Bool)
+    (us : List Rat) (ps : List (List Rat)) (hw : d.wf = true) (hs : ∀ i l, ∀ y ∈ o.shuf i l, y ∈ l)
+    (hwf : C08.boxWF (relaxedBox d.comps) = true) (hcw : C08.consWF (C01Bridge.toCons d) = true)
+    (hl : ∀ p ∈ ps, p.length = (relaxedBox d.comps).length) (hcl : cheby.length = (relaxedBox d.comps).length)
+    (hc : C08.strictAll (C08.halfspaces (relaxedBox d.comps) (C01Bridge.toCons d)) cheby = true)
+    (hu : ∀ u ∈ us, 0 ≤ u ∧ u < 1) :
+    ∀ c ∈ finalizeSPE d o ((ps.zip us).map fun pu =>
+        C08.restrictPoint (relaxedBox d.comps) (C01Bridge.toCons d) cheby viable onC pu.2 pu.1),
+      admissible d c = true := by
+  apply finalizeSPE_admissible d o _ hw hs
+  intro x hx
+  obtain ⟨⟨p, u⟩, hpu, rfl⟩ := List.mem_map.mp hx
+  have hz := List.of_mem_zip hpu
+  exact restricted_inRelaxed d cheby viable onC u p hwf hcw (hl p hz.1) hcl hc (hu u hz.2).1 (hu u hz.2).2
+
+/-! ### The refill of `replace_duplicate_points` on a discrete unconstrained domain (composition with C10) -/
+
+/-- Every row the distinct sampler returns - on the enumerating branch and on the sampling-with-replacement
+    branches alike, for every history and every oracle - is admissible in the shared domain model.  This
+    discharges the `fresh` hypothesis of `finalizeGP_admissible` for discrete unconstrained domains. -/
+theorem refill_admissible_discrete (d10 : C10.Domain) (hist : List C10.Row) (k : Nat) (dupProb : Rat)
+    (hwf : C10.WF d10) (hd : C10.isDiscrete d10 = true) (hI : ∀ r ∈ hist, C10.wellTypedRow d10 r = true)
+    (ω : C10.Oracle) :
+    ∀ p ∈ C10.distinct d10 false hist k dupProb ω, admissible (C01Bridge.toDom d10) p = true := by
+  intro p hp
+  rw [C01Bridge.admissible_eq]
+  cases hs : C10.onShortcut d10 hist k dupProb with
+  | true => exact C10.distinct_admissible_shortcut hwf hd hs ω p hp
+  | false => exact C10.distinct_admissible hwf hd hI hs ω p hp
+
+/-- GP endpoints on a discrete unconstrained domain: admissibility of the whole response with NO hypothesis on
+    the refill - it is the distinct sampler's output. -/
+theorem finalizeGP_admissible_discrete (d10 : C10.Domain) (cands : List Rat → List (List Rat)) (o : Oracle)
+    (xs : List (List Rat)) (hist : List C10.Row) (k : Nat) (dupProb : Rat) (ω : C10.Oracle)
+    (hw : (C01Bridge.toDom d10).wf = true) (hwf : C10.WF d10) (hd : C10.isDiscrete d10 = true)
+    (hI : ∀ r ∈ hist, C10.wellTypedRow d10 r = true)
+    (hs : ∀ i l, ∀ y ∈ o.shuf i l, y ∈ l)
+    (hx : ∀ x ∈ xs, inRelaxed (C01Bridge.toDom d10) x = true)
+    (hc : ∀ x ∈ xs, ∀ y ∈ cands x, inRelaxed (C01Bridge.toDom d10) y = true)
+    (hfresh : o.fresh = C10.distinct d10 false hist k dupProb ω) :
+    ∀ c ∈ finalizeGP (C01Bridge.toDom d10) cands o xs, admissible (C01Bridge.toDom d10) c = true :=
+  finalizeGP_admissible _ cands o xs hw hs hx hc
+    (by rw [hfresh]; exact refill_admissible_discrete d10 hist k dupProb hwf hd hI ω)
 
 /-! ### Count -/
 
